@@ -101,7 +101,24 @@ pub fn run_config(d: &Design, stim: &Stimulus, clock: &str, reset: &str, fault: 
         out.detail = format!("new diagnostics: {}", out.codes.join(","));
         return out;
     }
-    let sv = a.emit(0);
+    let mut sv = a.emit(0);
+    if std::env::var("MON_SV_FAULT_PLAIN_CASE").is_ok() {
+        // sensitivity experiment only: emulate an emitter that turns `case (x) inside` without range items into a plain `case`
+        let lines: Vec<&str> = sv.lines().collect();
+        let mut outl: Vec<String> = vec![];
+        for (k, l) in lines.iter().enumerate() {
+            let t = l.trim_end();
+            if t.trim_start().starts_with("case (") && t.ends_with(") inside") {
+                let has_range = lines[k + 1..].iter().take_while(|x| !x.trim_start().starts_with("endcase")).any(|x| x.trim_start().starts_with('['));
+                if !has_range {
+                    outl.push(t.trim_end_matches(" inside").to_string());
+                    continue;
+                }
+            }
+            outl.push(l.to_string());
+        }
+        sv = outl.join("\n") + "\n";
+    }
     out.sv = sv.clone();
     if let Err(e) = svref::syntax_gate(&sv) {
         out.status = "gate".into();
@@ -326,6 +343,102 @@ fn report(run: &Run, i: u64, cycles: usize, o: CaseOut, fault: bool) {
     }
 }
 
+/// Supplementary arm: one CaseGen design (shape kind = i mod #kinds) under two rotating configurations.
+pub fn run_case_shape(seed: u64, i: u64, cycles: usize, fault: bool) -> (String, CaseOut) {
+    let mut rng = Rng::for_case(seed, "C01case", i);
+    let kind = crate::casegen::KINDS[(i as usize) % crate::casegen::KINDS.len()];
+    let (d, stim) = crate::casegen::generate(&mut rng, kind, cycles);
+    let start = (i as usize / crate::casegen::KINDS.len()) * 2 % CONFIGS.len();
+    let mut cfgs = vec![];
+    for k in 0..2 {
+        let (c, r) = CONFIGS[(start + k * 3) % CONFIGS.len()];
+        let (d2, s2) = (d.clone(), stim.clone());
+        cfgs.push(fresh_thread(STACK_64M, move || run_config(&d2, &s2, c, r, fault, None)));
+    }
+    (kind.to_string(), CaseOut { design: d, mode: "case-shapes".into(), stim, cfgs })
+}
+
+fn report_case_shape(run: &Run, i: u64, kind: &str, o: CaseOut) {
+    let d = &o.design;
+    let mut ok = 0;
+    for r in &o.cfgs {
+        match r {
+            Err(p) => run.note(format!("case-shape {i} [{kind}]: panic at {}: {}", p.location, first_line(&p.message))),
+            Ok(c) => {
+                run.count(&format!("case_shape_status_{}", c.status), 1);
+                match c.status.as_str() {
+                    "ok" => {
+                        ok += 1;
+                        run.seen("configs", &c.cfg);
+                        run.count("case_shape_port_value_comparisons", c.cmp.compared as i64);
+                        run.count("case_shape_x_masked", c.cmp.xmasked as i64);
+                        run.count("disagreements_checked", c.cmp.compared as i64);
+                        for k in &c.constructs {
+                            run.seen("svref_constructs", k);
+                        }
+                        // which SV form did the emitter choose?
+                        for l in c.sv.lines() {
+                            let t = l.trim_start();
+                            if t.starts_with("case (") || t.starts_with("unique case (") {
+                                let form = if t.contains("1'b1") {
+                                    "emitted_case_true"
+                                } else if t.trim_end().ends_with("inside") {
+                                    "emitted_case_inside"
+                                } else {
+                                    "emitted_plain_case"
+                                };
+                                run.seen("case_shape_emitted_forms", form);
+                                run.count(&format!("case_shape_{form}"), 1);
+                            }
+                            if t.contains("==? (") {
+                                run.seen("case_shape_emitted_forms", "emitted_wildcard_equality");
+                            }
+                            if t.contains(" inside {") {
+                                run.seen("case_shape_emitted_forms", "emitted_inside_operator");
+                            }
+                        }
+                        if let Some(m) = &c.cmp.mismatch {
+                            run.violation(
+                                &format!("case-shape-mismatch:{kind}"),
+                                &format!(
+                                    "svref(emitted SV) and the Veryl simulator disagree on a `{kind}` design under {} at cycle {} on {}: svref {} vs veryl {} (inputs {})",
+                                    c.cfg, m["cycle"], m["output"], m["svref_value"], m["veryl_sim_value"], m["inputs_at_cycle"]
+                                ),
+                                json!({"case_index": i, "arm": "case-shapes", "kind": kind, "config": c.cfg, "mismatch": m, "design": d.text, "sv": c.sv,
+                                       "stimulus": drive::stim_to_json(&o.stim), "codes": c.codes}),
+                            );
+                        }
+                    }
+                    "gate" => run.violation(
+                        &format!("not-valid-sv:{}", crate::triage::gate_class(&c.detail, &c.sv)),
+                        &format!("emitted SystemVerilog of a `{kind}` design is rejected by sv-parser under {}: {}", c.cfg, first_line(&c.detail)),
+                        json!({"case_index": i, "arm": "case-shapes", "kind": kind, "config": c.cfg, "gate_error": c.detail, "design": d.text, "sv": c.sv,
+                               "stimulus": drive::stim_to_json(&o.stim), "codes": c.codes}),
+                    ),
+                    "unsupported" | "svref_runtime" => {
+                        run.seen("svref_unsupported_classes", &c.detail);
+                        run.count("case_shape_svref_unsupported", 1);
+                    }
+                    "rejected" => {
+                        run.seen("case_shape_rejected", &format!("{kind}: {}", c.detail));
+                    }
+                    "parse_error" => run.note(format!("case-shape {i} [{kind}]: CaseGen bug, parse error: {}", first_line(&c.detail))),
+                    "sim_build_error" => run.note(format!("case-shape {i} [{kind}]: simulator refused the design: {}", c.detail)),
+                    _ => {}
+                }
+            }
+        }
+    }
+    if ok > 0 {
+        run.count("case_shape_programs", 1);
+        run.seen("case_shapes", kind);
+        run.nontrivial(hash_str(&d.text));
+        if run.get_count("case_shape_programs") <= 2 {
+            run.sample(json!({"arm": "case-shapes", "case_index": i, "kind": kind, "design": d.text}));
+        }
+    }
+}
+
 pub fn selftest_or_inconclusive(run: &Run) {
     match refmodel::bv4::self_test() {
         Ok(n) => run.count("bv4_selftest_cases", n as i64),
@@ -377,6 +490,18 @@ pub fn main(args: Args) {
             Ok(o) => report(&run2, i, cycles, o, fault),
         }
     });
+    // supplementary arm: case / switch / inside shapes DesignGen never produces (wildcard labels in every position…)
+    let nshapes = args.budget("case_shapes", 66, 1100);
+    {
+        let run3 = run.clone();
+        par_cases(nshapes, args.jobs.min(16), STACK_64M, move |i| run_case_shape(seed, i, cycles, fault), move |i, r| {
+            run3.eval();
+            match r {
+                Err(p) => run3.note(format!("case-shape {i}: panic at {}: {}", p.location, first_line(&p.message))),
+                Ok((kind, o)) => report_case_shape(&run3, i, &kind, o),
+            }
+        });
+    }
     // svref-unsupported share: more than half of the generated designs unsupported → inconclusive
     let gen_ = run.get_count("designs_generated");
     let uns = run.get_count("designs_svref_unsupported");
@@ -392,10 +517,10 @@ pub fn main(args: Args) {
     }
     let hist: BTreeMap<String, i64> = BTreeMap::new();
     let _ = hist;
-    if args.get("mode").is_some() || args.get("cases").is_some() || args.get("configs").is_some() {
+    if args.get("mode").is_some() || args.get("cases").is_some() || args.get("configs").is_some() || args.get("case_shapes").is_some() {
         run.finish(&[]);
     }
-    run.finish(&[("programs", 40), ("configs", 8), ("cycles_compared", 10_000), ("programs_with_ff", 15), ("svref_constructs", 12)]);
+    run.finish(&[("programs", 40), ("configs", 8), ("cycles_compared", 10_000), ("programs_with_ff", 15), ("svref_constructs", 12), ("case_shape_programs", 20), ("case_shapes", 16), ("case_shape_port_value_comparisons", 2_000), ("case_shape_emitted_forms", 4)]);
 }
 
 pub fn _unused(_: Json) {}
